@@ -79,7 +79,7 @@ impl Trace0 {
             run_index: idx,
             run_seed: derive(verif_seed, prop_num(prop) as u64, idx),
             mode: "seed".into(),
-            config: Config { ctor: Ctor::WithHasher, mode: crate::stubs::HashMode::Good, salt: 0, max_size: 0, universe: 0, prefill: 0, prefill_vh: 0 },
+            config: Config { ctor: Ctor::WithHasher, mode: crate::stubs::HashMode::Good, salt: 0, max_size: 0, universe: 0, prefill: 0, prefill_vh: 0, marathon: 0 },
             ops: vec![],
             sanitizer: if sanitizer.is_empty() { None } else { Some(sanitizer.into()) },
             tier: Some(tier.into()),
